@@ -1,20 +1,33 @@
 import Cx.Model.Dfa
 import Cx.Proofs.Pike
 import Cx.Proofs.DfaCache
+import Cx.Proofs.DfaClass
+import Cx.Proofs.DfaClo
 /-
-  Cx.Proofs.DfaRef — (b) THE UNCACHED LAZY DFA IS THE REFERENCE, for NFAs without look-around states.
+  Cx.Proofs.DfaRef — (b) THE UNCACHED LAZY DFA IS THE REFERENCE — for every NFA, look-around included
+  (`\A \z ^ $ (?m)^ (?m)$ \b \B`), without rune states, with disjoint sparse ranges.
 
   Route.  A DFA state is the ordered list `L` of all NFA states popped by the closure; its terminal members
-  (`thr s L`: byte and match states, as Pike threads) are exactly the thread queue of the Pike VM's generation,
-  because `closureInto` and `Pike.closure` are the same DFS (`closure_dfa`); `moveLoop` with break-at-match is
-  `Pike.stepAll ∘ beforeMatch` (`moveLoop_dfa`); hence the DFA loop with its 1-byte-delayed match flag is the
-  generation-wise search `Pike.R` (`searchLoopU_eq_R`), which `Cx.Proofs.PikeOrder` proves equal to the priority
-  DFS of the backtracker for ONE start position (`R_eq_bt`).
+  (`thr s L`: byte and match states, as Pike threads) are compared with the thread queue of the Pike VM's generation:
+  `closureInto` with the REAL look set of a position (`lkReal h pos`: every assertion evaluated by `lookOK` on the whole
+  haystack) and `Pike.closure` are the same DFS (`closure_dfa`); `moveLoop` with break-at-match is
+  `Pike.stepAll ∘ beforeMatch` (`moveLoop_dfa`).
+  The DFA does not know the real look set when it closes the targets of a move: it closes them with the look-BEHIND
+  assertions only (`lkBehind h pos`: `\A`, `(?m)^`), records that context in the state (`lookHave`, `isFromWord`) and
+  re-closes the list when the next byte — or the end of input — is known.  State invariant `SI`: the list of the state
+  at `pos` is the incremental closure of some seed list under `lkBehind h pos`, and its context fields describe `pos`.
+  Then, by the re-closure lemma (`Cx.Proofs.DfaClo.reclose`), the list `determinize` works on (`resolved`) and the list
+  of the end-of-input check are the incremental closure of the same seeds under the REAL look set (`resolved_real`,
+  `eoi_real_list`) — i.e. the Pike generation.  Hence the DFA loop with its 1-byte-delayed match flag is the
+  generation-wise search `Pike.R` (`sU_eq_R`), which `Cx.Proofs.PikeOrder` proves equal to the priority DFS of the
+  backtracker for ONE start position (`R_eq_bt`).
   Anchored start state  ⇒  `anchoredU = btFirst` (`anchoredU_eq_bt`).
   Unanchored start state: the closure from the `(?s:.)*?` prefix is the anchored queue followed by the any-byte thread
   (`prefix_queue`); threads of start positions without a match are dead and invisible to `R` (`R_sim`), the threads
   of the leftmost matching start come first (`R_append`)  ⇒  `searchAtU = (btSearchAt …).map (·.2)`.
+  `at = len`: `matchesEmptyAt` is one closure under the real look set of the end position (`matchesEmptyAt_iff`).
 -/
+
 namespace Cx.Dfa
 open Cx Cx.Nfa
 
@@ -55,12 +68,7 @@ theorem hasWB_of_lookFree {N : NFA} (h : lookFreeB N = true) : hasWB N = false :
 
 theorem hasEndLine_of_lookFree {N : NFA} (h : lookFreeB N = true) : hasEndLine N = false := hasLookWhere_lookFree h _
 
-theorem get_mem_of_ne_fail {N : NFA} {q : Nat} (hne : N.get q ≠ .fail) : N.get q ∈ N.states.toList := by
-  have hlt := Pike.get_lt_of_ne_fail hne
-  unfold NFA.get
-  have he : N.states.getD q NState.fail = N.states[q] := by simp [Array.getD_eq_getD_getElem?, hlt]
-  rw [he]
-  simp
+
 
 theorem noRune_of_B {N : NFA} (h : noRuneB N = true) : Pike.NoRune N := by
   intro q nx
@@ -90,6 +98,7 @@ theorem sparseDisjoint_of_B {N : NFA} (h : sparseDisjointB N = true) : Pike.Spar
   have := h _ (get_mem_of_ne_fail (by rw [hq]; simp))
   rw [hq] at this
   exact rangesDisjoint_pairwise this
+
 
 /-! ### a DFA state as a Pike generation -/
 
@@ -124,17 +133,37 @@ theorem thr_single (N : NFA) (s q : Nat) : thr N s [q] = if termB N q then [mk s
   unfold thr
   by_cases ht : termB N q = true <;> simp [ht]
 
-theorem expand_eq {N : NFA} (hlf : LookFree N) (h : Bytes) (pos : Nat) (lk : LookSet) (q s : Nat) :
+
+/-- the look set that satisfies exactly the assertions that hold at `pos` of `h` (`checkLookAssertion`) -/
+def lkReal (h : Bytes) (pos : Nat) : LookSet :=
+  { startText := lookOK .startText h pos, endText := lookOK .endText h pos, startLine := lookOK .startLine h pos,
+    endLine := lookOK .endLine h pos, wordB := lookOK .wordB h pos, noWordB := lookOK .noWordB h pos }
+
+theorem lkReal_contains (h : Bytes) (pos : Nat) (k : Look) : (lkReal h pos).contains k = lookOK k h pos := by
+  cases k <;> rfl
+
+theorem succs_real (N : NFA) (h : Bytes) (pos q : Nat) :
+    succs N (lkReal h pos) q =
+      (match N.get q with
+       | .eps nx => [nx]
+       | .split l r => [l, r]
+       | .look k nx => if lookOK k h pos then [nx] else []
+       | .cap _ _ nx => [nx]
+       | _ => []) := by
+  unfold succs
+  cases hq : N.get q <;> simp only [lkReal_contains]
+
+theorem expand_eq {N : NFA} {h : Bytes} {pos : Nat} {lk : LookSet} (hlk : LkEq N lk (lkReal h pos)) (q s : Nat) :
     Pike.expand N h pos ⟨q, s⟩ = ((succs N lk q).map (mk s), termB N q) := by
-  unfold Pike.expand succs termB mk
+  rw [hlk q, succs_real]
+  unfold Pike.expand termB mk
   cases hq : N.get q <;> simp
-  exact absurd hq (hlf _ _ _)
+  split <;> simp
+
 
 theorem termB_oob {N : NFA} {q : Nat} (hq : N.states.size ≤ q) : termB N q = false := by
   unfold termB; rw [get_oob N hq]
 
-theorem succs_oob {N : NFA} (lk : LookSet) {q : Nat} (hq : N.states.size ≤ q) : succs N lk q = [] := by
-  unfold succs; rw [get_oob N hq]
 
 theorem getD_oob {vis : Pike.Vis} {q : Nat} (hq : vis.size ≤ q) : vis.getD q true = true := by
   simp [Array.getD_eq_getD_getElem?, Array.getElem?_eq_none hq]
@@ -146,8 +175,9 @@ theorem contains_append_single (L : List Nat) (q q' : Nat) :
   · have : (q' == q) = false := by simp [hq]
     simp [hq, this]
 
+
 /-- `closureInto` and the Pike VM's closure are the same DFS -/
-theorem closure_dfa {N : NFA} (hlf : LookFree N) (h : Bytes) (pos : Nat) (lk : LookSet) (s : Nat) :
+theorem closure_dfa {N : NFA} {h : Bytes} {pos : Nat} {lk : LookSet} (hlk : LkEq N lk (lkReal h pos)) (s : Nat) :
     ∀ (fuel : Nat) (st res : List Nat) (vis : Pike.Vis), Rel N vis res →
       (Pike.closure N h pos fuel (st.map (mk s)) vis (thr N s res)).2 = thr N s (closureInto N lk fuel st res) ∧
       Rel N (Pike.closure N h pos fuel (st.map (mk s)) vis (thr N s res)).1 (closureInto N lk fuel st res) := by
@@ -174,7 +204,7 @@ theorem closure_dfa {N : NFA} (hlf : LookFree N) (h : Bytes) (pos : Nat) (lk : L
             show ¬ (vis.getD q true = true)
             rw [hv]; exact hc
           rw [if_neg hv']
-          have he : Pike.expand N h pos (mk s q) = ((succs N lk q).map (mk s), termB N q) := expand_eq hlf h pos lk q s
+          have he : Pike.expand N h pos (mk s q) = ((succs N lk q).map (mk s), termB N q) := expand_eq hlk q s
           rw [he]
           simp only
           have hout : (if termB N q = true then thr N s res ++ [mk s q] else thr N s res) = thr N s (res ++ [q]) := by
@@ -219,13 +249,13 @@ theorem closure_dfa {N : NFA} (hlf : LookFree N) (h : Bytes) (pos : Nat) (lk : L
 theorem closureFuel_eq (N : NFA) : closureFuel N = Pike.closureFuel N := rfl
 
 /-- `epsilonClosureInto(result, seed)` is `addSearchThread` -/
-theorem closeSeed_dfa {N : NFA} (hlf : LookFree N) (h : Bytes) (pos : Nat) (lk : LookSet) (s : Nat) (seed : Nat)
+theorem closeSeed_dfa {N : NFA} {h : Bytes} {pos : Nat} {lk : LookSet} (hlk : LkEq N lk (lkReal h pos)) (s : Nat) (seed : Nat)
     {res : List Nat} {vis : Pike.Vis} (hr : Rel N vis res) :
     (Pike.addThread N h pos (mk s seed) (vis, thr N s res)).2 = thr N s (closeSeed N lk res seed) ∧
     Rel N (Pike.addThread N h pos (mk s seed) (vis, thr N s res)).1 (closeSeed N lk res seed) := by
   unfold Pike.addThread closeSeed
   rw [closureFuel_eq]
-  exact closure_dfa hlf h pos lk s (Pike.closureFuel N) [seed] res vis hr
+  exact closure_dfa hlk s (Pike.closureFuel N) [seed] res vis hr
 
 /-! ### `moveLoop` is `stepAll ∘ beforeMatch` -/
 
@@ -233,7 +263,7 @@ theorem closeSeed_dfa {N : NFA} (hlf : LookFree N) (h : Bytes) (pos : Nat) (lk :
 def cut (N : NFA) (brk : Bool) (L : List Nat) : List Nat :=
   if brk then L.takeWhile (fun q => !Pike.isMatchState N q) else L
 
-theorem sparseInto_dfa {N : NFA} (hlf : LookFree N) (h : Bytes) (pos : Nat) (lk : LookSet) (s b : Nat) :
+theorem sparseInto_dfa {N : NFA} {h : Bytes} {pos : Nat} {lk : LookSet} (hlk : LkEq N lk (lkReal h (pos+1))) (s b : Nat) :
     ∀ (ts : List (Nat × Nat × Nat)) (res : List Nat) (vis : Pike.Vis), Rel N vis res →
       (Pike.stepSparse N h pos b s ts (vis, thr N s res)).2 = thr N s (sparseInto N lk b ts res) ∧
       Rel N (Pike.stepSparse N h pos b s ts (vis, thr N s res)).1 (sparseInto N lk b ts res) := by
@@ -245,7 +275,7 @@ theorem sparseInto_dfa {N : NFA} (hlf : LookFree N) (h : Bytes) (pos : Nat) (lk 
     obtain ⟨lo, hi, nx⟩ := t
     simp only [Pike.stepSparse, sparseInto]
     split
-    · obtain ⟨e1, e2⟩ := closeSeed_dfa hlf h (pos+1) lk s nx hr
+    · obtain ⟨e1, e2⟩ := closeSeed_dfa hlk s nx hr
       have hpair : Pike.addThread N h (pos+1) ⟨nx, s⟩ (vis, thr N s res) =
           ((Pike.addThread N h (pos+1) (mk s nx) (vis, thr N s res)).1, thr N s (closeSeed N lk res nx)) := by
         rw [← e1]; rfl
@@ -258,7 +288,7 @@ theorem isMatch_termB {N : NFA} {q : Nat} (hm : Pike.isMatchState N q = true) : 
   unfold termB
   cases hq : N.get q <;> simp [hq] at hm ⊢
 
-theorem moveLoop_dfa {N : NFA} (hlf : LookFree N) (hnr : Pike.NoRune N) (h : Bytes) (pos : Nat) (lk : LookSet) (s : Nat)
+theorem moveLoop_dfa {N : NFA} (hnr : Pike.NoRune N) {h : Bytes} {pos : Nat} {lk : LookSet} (hlk : LkEq N lk (lkReal h (pos+1))) (s : Nat)
     (brk : Bool) : ∀ (L res : List Nat) (vis : Pike.Vis), Rel N vis res →
       (Pike.stepAll N h pos (thr N s (cut N brk L)) (vis, thr N s res)).2 = thr N s (moveLoop N lk (h.at pos) brk L res) ∧
       Rel N (Pike.stepAll N h pos (thr N s (cut N brk L)) (vis, thr N s res)).1 (moveLoop N lk (h.at pos) brk L res) := by
@@ -313,7 +343,7 @@ theorem moveLoop_dfa {N : NFA} (hlf : LookFree N) (hnr : Pike.NoRune N) (h : Byt
         unfold Pike.stepThread mk; simp only [hq]
       rw [hstep]
       split
-      · obtain ⟨e1, e2⟩ := closeSeed_dfa hlf h (pos+1) lk s nx hr
+      · obtain ⟨e1, e2⟩ := closeSeed_dfa hlk s nx hr
         have hpair : Pike.addThread N h (pos+1) ⟨nx, s⟩ (vis, thr N s res) =
             ((Pike.addThread N h (pos+1) (mk s nx) (vis, thr N s res)).1, thr N s (closeSeed N lk res nx)) := by
           rw [← e1]; rfl
@@ -333,7 +363,7 @@ theorem moveLoop_dfa {N : NFA} (hlf : LookFree N) (hnr : Pike.NoRune N) (h : Byt
           Pike.stepSparse N h pos (h.at pos) s ts (vis, thr N s res) := by
         unfold Pike.stepThread mk; simp only [hq]
       rw [hstep]
-      obtain ⟨e1, e2⟩ := sparseInto_dfa hlf h pos lk s (h.at pos) ts res vis hr
+      obtain ⟨e1, e2⟩ := sparseInto_dfa hlk s (h.at pos) ts res vis hr
       have hpair : Pike.stepSparse N h pos (h.at pos) s ts (vis, thr N s res) =
           ((Pike.stepSparse N h pos (h.at pos) s ts (vis, thr N s res)).1, thr N s (sparseInto N lk (h.at pos) ts res)) := by
         rw [← e1]
@@ -341,7 +371,13 @@ theorem moveLoop_dfa {N : NFA} (hlf : LookFree N) (hnr : Pike.NoRune N) (h : Byt
       exact ih _ _ e2
     | runeAny nx => exact absurd hq (hnr q nx).1
     | runeAnyNotNL nx => exact absurd hq (hnr q nx).2
-    | look k nx => exact absurd hq (hlf q k nx)
+    | look k nx =>
+      have hm : Pike.isMatchState N q = false := by unfold Pike.isMatchState; rw [hq]
+      have htq : termB N q = false := by unfold termB; rw [hq]
+      have ht : thr N s (q :: cut N brk qs) = thr N s (cut N brk qs) := by
+        unfold thr; simp [List.filter, htq]
+      rw [hcut_keep hm, ht, moveLoop, hq]
+      exact ih res vis hr
     | split l r =>
       have hm : Pike.isMatchState N q = false := by unfold Pike.isMatchState; rw [hq]
       have htq : termB N q = false := by unfold termB; rw [hq]
@@ -444,17 +480,6 @@ theorem thr_cut (N : NFA) (s : Nat) (L : List Nat) :
   | true => rfl
   | false => simp only [Bool.false_eq_true, ↓reduceIte]; rw [takeWhile_no_match hm]
 
-/-! ### one transition -/
-
-theorem step_lookFree {N : NFA} (hlf : lookFreeB N = true) (cfg : Config) (hbrk : cfg.breakAtMatch = true) (S : DState)
-    (b : Nat) :
-    step N cfg S b =
-      (if (moveLoop N (lookAfter b) b (containsMatch N S.nfa) S.nfa []).isEmpty ∧ containsMatch N S.nfa = false then .dead
-       else if (moveLoop N (lookAfter b) b (containsMatch N S.nfa) S.nfa []).length > cfg.detLimit then .limit
-       else .next { nfa := moveLoop N (lookAfter b) b (containsMatch N S.nfa) S.nfa [], isMatch := containsMatch N S.nfa,
-                    fromWord := isWordByte b, mWB := false, mNWB := false }) := by
-  simp only [step, moveBreak, hasWB_of_lookFree hlf, hasEndLine_of_lookFree hlf, hbrk, Bool.false_eq_true, false_and,
-    ↓reduceIte, Bool.and_true, Bool.false_and]
 
 /-- the current DFA state is a complete Pike generation at position `pos` -/
 def Good (N : NFA) (h : Bytes) (pos s : Nat) (L : List Nat) : Prop :=
@@ -473,12 +498,12 @@ theorem stepAll_genOK {N : NFA} {h : Bytes} (hR : Pike.RuneOK N h) {pos : Nat} (
     exact ih _ (Pike.addAll_spec t.start _ g).1
 
 /-- the successor list: its threads are the next Pike generation, and it is again a complete generation -/
-theorem next_dfa {N : NFA} (hlf : LookFree N) (hnr : Pike.NoRune N) (h : Bytes) {pos : Nat} (hp : pos < h.size) (s : Nat)
-    (lk : LookSet) (L : List Nat) :
+theorem next_dfa {N : NFA} (hnr : Pike.NoRune N) {h : Bytes} {pos : Nat} (hp : pos < h.size) (s : Nat)
+    {lk : LookSet} (hlk : LkEq N lk (lkReal h (pos+1))) (L : List Nat) :
     thr N s (moveLoop N lk (h.at pos) (containsMatch N L) L []) =
       (Pike.stepAll N h pos (Pike.beforeMatch N (thr N s L)) (Pike.clearVis N, [])).2 ∧
     Good N h (pos+1) s (moveLoop N lk (h.at pos) (containsMatch N L) L []) := by
-  obtain ⟨e1, e2⟩ := moveLoop_dfa hlf hnr h pos lk s (containsMatch N L) L [] (Pike.clearVis N) (rel_clear N)
+  obtain ⟨e1, e2⟩ := moveLoop_dfa hnr hlk s (containsMatch N L) L [] (Pike.clearVis N) (rel_clear N)
   rw [thr_cut] at e1 e2
   have hnil : thr N s [] = [] := rfl
   rw [hnil] at e1 e2
@@ -487,10 +512,10 @@ theorem next_dfa {N : NFA} (hlf : LookFree N) (hnr : Pike.NoRune N) (h : Bytes) 
   rw [← e1]
   exact g
 
-theorem good_start {N : NFA} (hlf : LookFree N) (h : Bytes) (pos s : Nat) (lk : LookSet) (q0 : Nat) :
+theorem good_start {N : NFA} {h : Bytes} {pos : Nat} {lk : LookSet} (hlk : LkEq N lk (lkReal h pos)) (s : Nat) (q0 : Nat) :
     thr N s (epsilonClosure N [q0] lk) = (Pike.addThread N h pos ⟨q0, s⟩ (Pike.clearVis N, [])).2 ∧
     Good N h pos s (epsilonClosure N [q0] lk) := by
-  obtain ⟨e1, e2⟩ := closeSeed_dfa hlf h pos lk s q0 (rel_clear N)
+  obtain ⟨e1, e2⟩ := closeSeed_dfa hlk s q0 (rel_clear N)
   have hnil : thr N s [] = [] := rfl
   rw [hnil] at e1 e2
   have he : epsilonClosure N [q0] lk = closeSeed N lk [] q0 := rfl
@@ -499,26 +524,6 @@ theorem good_start {N : NFA} (hlf : LookFree N) (h : Bytes) (pos s : Nat) (lk : 
   have g := (Pike.addThread_spec (Pike.genOK_clear N h pos) ⟨q0, s⟩).1
   rw [← e1]
   exact g
-
-/-! ### the end-of-input check -/
-
-theorem foldl_closeSeed_dfa {N : NFA} (hlf : LookFree N) (h : Bytes) (pos : Nat) (lk : LookSet) (s : Nat) :
-    ∀ (L res : List Nat) (vis : Pike.Vis), Rel N vis res →
-      (Pike.addAll N h pos s L (vis, thr N s res)).2 = thr N s (L.foldl (closeSeed N lk) res) ∧
-      Rel N (Pike.addAll N h pos s L (vis, thr N s res)).1 (L.foldl (closeSeed N lk) res) := by
-  intro L
-  induction L with
-  | nil => intro res vis hr; exact ⟨rfl, hr⟩
-  | cons q qs ih =>
-    intro res vis hr
-    have hunf : Pike.addAll N h pos s (q :: qs) (vis, thr N s res) =
-        Pike.addAll N h pos s qs (Pike.addThread N h pos ⟨q, s⟩ (vis, thr N s res)) := rfl
-    obtain ⟨e1, e2⟩ := closeSeed_dfa hlf h pos lk s q hr
-    have hpair : Pike.addThread N h pos ⟨q, s⟩ (vis, thr N s res) =
-        ((Pike.addThread N h pos (mk s q) (vis, thr N s res)).1, thr N s (closeSeed N lk res q)) := by
-      rw [← e1]; rfl
-    rw [hunf, hpair]
-    exact ih _ _ e2
 
 theorem mem_thr {N : NFA} {s : Nat} {L : List Nat} {t : Pike.Thread} (ht : t ∈ thr N s L) : t.state ∈ L := by
   unfold thr at ht
@@ -539,73 +544,195 @@ theorem epsReach_oob {N : NFA} {h : Bytes} {pos q q' : Nat} (hq : N.states.size 
     rw [get_oob N hq] at this
     exact this.elim
 
-/-- re-closing a complete generation adds no match state -/
-theorem eoi_closure {N : NFA} (hlf : LookFree N) {h : Bytes} {pos s : Nat} {L : List Nat} (hg : Good N h pos s L)
-    (lk : LookSet) : containsMatch N (epsilonClosure N L lk) = containsMatch N L := by
-  obtain ⟨vis, hr, g⟩ := hg
-  obtain ⟨e1, e2⟩ := foldl_closeSeed_dfa hlf h pos lk s L [] (Pike.clearVis N) (rel_clear N)
-  have hnil : thr N s [] = [] := rfl
-  rw [hnil] at e1 e2
-  obtain ⟨g2, _, hmark, new, hnew, hprop⟩ := Pike.addAll_spec (N := N) (h := h) (pos := pos) s L (Pike.genOK_clear N h pos)
-  simp only [List.nil_append] at hnew
-  have he : epsilonClosure N L lk = L.foldl (closeSeed N lk) [] := rfl
-  rw [he]
-  cases hc : containsMatch N L with
-  | true =>
-    -- a match state of `L` is a seed, hence marked, hence in the closure
-    unfold containsMatch at hc ⊢
-    rw [List.any_eq_true] at hc ⊢
-    obtain ⟨m, hm, hmm⟩ := hc
-    refine ⟨m, ?_, hmm⟩
-    have hlt : m < N.states.size := by
-      apply Pike.get_lt_of_ne_fail
-      rw [(Pike.isMatchState_iff N m).mp hmm]; simp
-    have := hmark m hm
-    unfold Pike.Marked at this
-    rw [e2.2 m hlt] at this
-    simpa using this
-  | false =>
-    cases hc2 : containsMatch N (L.foldl (closeSeed N lk) []) with
-    | false => rfl
-    | true =>
-      exfalso
-      unfold containsMatch at hc2
-      rw [List.any_eq_true] at hc2
-      obtain ⟨m, hm, hmm⟩ := hc2
-      have hmt : mk s m ∈ thr N s (L.foldl (closeSeed N lk) []) := mem_thr_of hm (isMatch_termB hmm)
-      rw [← e1, hnew] at hmt
-      obtain ⟨_, _, nx, hnx, hreach⟩ := hprop _ hmt
-      have hmlt : m < N.states.size := by
-        apply Pike.get_lt_of_ne_fail
-        rw [(Pike.isMatchState_iff N m).mp hmm]; simp
-      by_cases hnlt : nx < N.states.size
-      · have hmk : Pike.Marked vis nx := by
-          unfold Pike.Marked
-          rw [hr.2 nx hnlt]
-          simpa using hnx
-        have hmm2 : Pike.Marked vis m := Pike.closed_reach g.closed hreach hmk
-        have hterm : Pike.Terminal N m := by
-          unfold Pike.Terminal
-          rw [(Pike.isMatchState_iff N m).mp hmm]
-          trivial
-        obtain ⟨t, ht, hts⟩ := g.covered m hmlt hmm2 hterm
-        have hmL : m ∈ L := by rw [← hts]; exact mem_thr ht
-        have : containsMatch N L = true := by
-          unfold containsMatch
-          rw [List.any_eq_true]
-          exact ⟨m, hmL, hmm⟩
-        rw [hc] at this
-        cases this
-      · have := epsReach_oob (Nat.le_of_not_lt hnlt) hreach
-        show False
-        have hmeq : m = nx := this
-        omega
+/-! ### the look-behind context of a DFA state and the real look set of its position -/
 
-theorem checkEOI_lookFree {N : NFA} (hlfB : lookFreeB N = true) {h : Bytes} {pos s : Nat} {S : DState}
-    (hg : Good N h pos s S.nfa) : checkEOI N S = containsMatch N S.nfa := by
-  unfold checkEOI checkEOIStates
-  rw [resolveWB_id (hasWB_of_lookFree hlfB)]
-  exact eoi_closure (lookFree_of_B hlfB) hg lookEOI
+theorem nat_beq_decide (a b : Nat) : (a == b) = decide (a = b) := by
+  by_cases h : a = b
+  · simp [h]
+  · have : (a == b) = false := by simp [h]
+    rw [this]; simp [h]
+
+/-- the assertions about what precedes `pos` (what the closure of a target / a start state is computed with) -/
+def lkBehind (h : Bytes) (pos : Nat) : LookSet :=
+  { startText := decide (pos = 0), startLine := lookOK .startLine h pos }
+
+theorem lookOfKind_kindAt (h : Bytes) (pos : Nat) : lookOfKind (kindAt h pos) = lkBehind h pos := by
+  unfold kindAt lkBehind
+  by_cases hp : pos = 0
+  · subst hp
+    simp [lookOfKind, lookOK]
+  · rw [if_neg hp]
+    unfold kindOfByte
+    have hpos : pos > 0 := by omega
+    by_cases h10 : h.at (pos - 1) = 10
+    · rw [if_pos h10]
+      simp [lookOfKind, lookOK, hp, h10, hpos]
+    · rw [if_neg h10]
+      have : lookOK .startLine h pos = false := by simp [lookOK, hp, h10]
+      rw [this]
+      split
+      · simp [lookOfKind, hp]
+      · split <;> simp [lookOfKind, hp]
+
+theorem lookAfter_eq (h : Bytes) (pos : Nat) : lookAfter (h.at pos) = lkBehind h (pos + 1) := by
+  unfold lookAfter lkBehind
+  by_cases h10 : h.at pos = 10
+  · rw [if_pos h10]; simp [lookOK, h10]
+  · rw [if_neg h10]; simp [lookOK, h10]
+
+/-- the DFA state `S` stands at `pos`: its list is the incremental closure of `seeds` under the look-behind set of
+    `pos`, and its context fields describe `pos` -/
+structure SI (N : NFA) (h : Bytes) (pos : Nat) (S : DState) (seeds : List Nat) : Prop where
+  nfa : S.nfa = seeds.foldl (closeSeed N (lkBehind h pos)) []
+  fw : S.fromWord = (decide (0 < pos) && isWordByte (h.at (pos - 1)))
+  lhT : S.lhText = (decide (pos = 0) && hasStartText N)
+  lhL : S.lhLine = (lookOK .startLine h pos && hasStartLine N)
+
+/-- the same seeds closed under the real look set of the position: the Pike generation -/
+def Lr (N : NFA) (h : Bytes) (pos : Nat) (seeds : List Nat) : List Nat := seeds.foldl (closeSeed N (lkReal h pos)) []
+
+theorem ahead_real {N : NFA} {h : Bytes} {pos : Nat} {S : DState} {seeds : List Nat} (hsi : SI N h pos S seeds)
+    (hlt : pos < h.size) : LkEq N (aheadLook S (h.at pos)) (lkReal h pos) := by
+  apply lkEq_of_agree
+  intro q k nx hq
+  have hne : pos ≠ h.size := by omega
+  cases k with
+  | startText =>
+    have hh : hasStartText N = true := hasLookWhere_of hq (p := fun k => k == .startText) rfl
+    simp only [aheadLook, lkReal, LookSet.contains, lookOK, hsi.lhT, hh, Bool.and_true]
+  | endText => simp [aheadLook, lkReal, LookSet.contains, lookOK, hne]
+  | startLine =>
+    have hh : hasStartLine N = true := hasLookWhere_of hq (p := fun k => k == .startLine) rfl
+    simp only [aheadLook, lkReal, LookSet.contains, hsi.lhL, hh, Bool.and_true]
+  | endLine => simp [aheadLook, lkReal, LookSet.contains, lookOK, hne, hlt, nat_beq_decide]
+  | wordB => simp [aheadLook, lkReal, LookSet.contains, lookOK, hsi.fw, hlt]
+  | noWordB => simp [aheadLook, lkReal, LookSet.contains, lookOK, hsi.fw, hlt]
+
+theorem eoi_real {N : NFA} {h : Bytes} {pos : Nat} {S : DState} {seeds : List Nat} (hsi : SI N h pos S seeds)
+    (he : pos = h.size) : LkEq N (eoiLook S) (lkReal h pos) := by
+  apply lkEq_of_agree
+  intro q k nx hq
+  have hnlt : ¬ pos < h.size := by omega
+  cases k with
+  | startText =>
+    have hh : hasStartText N = true := hasLookWhere_of hq (p := fun k => k == .startText) rfl
+    simp only [eoiLook, lkReal, LookSet.contains, lookOK, hsi.lhT, hh, Bool.and_true]
+  | endText => simp [eoiLook, lkReal, LookSet.contains, lookOK, he]
+  | startLine =>
+    have hh : hasStartLine N = true := hasLookWhere_of hq (p := fun k => k == .startLine) rfl
+    simp only [eoiLook, lkReal, LookSet.contains, hsi.lhL, hh, Bool.and_true]
+  | endLine => simp [eoiLook, lkReal, LookSet.contains, lookOK, he]
+  | wordB => simp [eoiLook, lkReal, LookSet.contains, lookOK, hsi.fw, hnlt]
+  | noWordB => simp [eoiLook, lkReal, LookSet.contains, lookOK, hsi.fw, hnlt]
+
+theorem behind_sub_real (N : NFA) (h : Bytes) (pos : Nat) : LkSub N (lkBehind h pos) (lkReal h pos) := by
+  apply lkSub_of_imp
+  intro q k nx _ hk
+  cases k <;> simp_all [lkBehind, lkReal, LookSet.contains, lookOK]
+
+/-- when `determinize` does not re-close, no assertion of the automaton looks ahead at this position -/
+theorem behind_eq_real {N : NFA} {h : Bytes} {pos : Nat} (hlt : pos < h.size) (hw : hasWB N = false)
+    (he : ¬ (hasEndLine N = true ∧ h.at pos = 10)) : LkEq N (lkBehind h pos) (lkReal h pos) := by
+  apply lkEq_of_agree
+  intro q k nx hq
+  have hne : pos ≠ h.size := by omega
+  cases k with
+  | startText => simp [lkBehind, lkReal, LookSet.contains, lookOK]
+  | endText => simp [lkBehind, lkReal, LookSet.contains, lookOK, hne]
+  | startLine => simp [lkBehind, lkReal, LookSet.contains]
+  | endLine =>
+    have hh : hasEndLine N = true := hasLookWhere_of hq (p := fun k => k == .endLine) rfl
+    have h10 : ¬ h.at pos = 10 := fun h1 => he ⟨hh, h1⟩
+    simp [lkBehind, lkReal, LookSet.contains, lookOK, hne, h10]
+  | wordB =>
+    have := hasLookWhere_false hw hq
+    simp at this
+  | noWordB =>
+    have := hasLookWhere_false hw hq
+    simp at this
+
+/-- the thread list `determinize` works on is the Pike generation of the position -/
+theorem resolved_real {N : NFA} {h : Bytes} {pos : Nat} {S : DState} {seeds : List Nat} (hsi : SI N h pos S seeds)
+    (hlt : pos < h.size) : resolved N S (h.at pos) = Lr N h pos seeds := by
+  unfold resolved Lr
+  split
+  · unfold resolveLookAhead
+    rw [epsilonClosure_congr (ahead_real hsi hlt), hsi.nfa]
+    exact reclose (behind_sub_real N h pos) seeds
+  · rename_i hc
+    simp only [Bool.or_eq_true, Bool.and_eq_true, beq_iff_eq, not_or, not_and] at hc
+    rw [hsi.nfa]
+    apply foldl_closeSeed_congr
+    apply behind_eq_real hlt (by simpa using hc.1)
+    intro hh
+    exact hc.2 hh.1 hh.2
+
+/-- … and so is the list of the end-of-input check -/
+theorem eoi_real_list {N : NFA} {h : Bytes} {pos : Nat} {S : DState} {seeds : List Nat} (hsi : SI N h pos S seeds)
+    (he : pos = h.size) : epsilonClosure N S.nfa (eoiLook S) = Lr N h pos seeds := by
+  rw [epsilonClosure_congr (eoi_real hsi he), hsi.nfa]
+  exact reclose (behind_sub_real N h pos) seeds
+
+/-- the start state stands at its position -/
+theorem si_start (N : NFA) (h : Bytes) (pos : Nat) (anch : Bool) :
+    SI N h pos (startState N (kindAt h pos) anch) [if anch then N.startAnchored else N.startUnanchored] := by
+  refine ⟨?_, ?_, ?_, ?_⟩
+  · show epsilonClosure N _ (lookOfKind (kindAt h pos)) = _
+    rw [lookOfKind_kindAt]
+    rfl
+  · show (kindAt h pos == StartKind.word) = _
+    unfold kindAt
+    by_cases hp : pos = 0
+    · subst hp; simp
+    · rw [if_neg hp]
+      have hpos : 0 < pos := by omega
+      unfold kindOfByte
+      by_cases h10 : h.at (pos - 1) = 10
+      · rw [if_pos h10, h10]; simp [hpos]; decide
+      · rw [if_neg h10]
+        by_cases h13 : h.at (pos - 1) = 13
+        · rw [if_pos h13, h13]; simp [hpos]; decide
+        · rw [if_neg h13]
+          cases hw : isWordByte (h.at (pos - 1)) <;> simp [hpos]
+  · show ((lookOfKind (kindAt h pos)).startText && hasStartText N) = _
+    rw [lookOfKind_kindAt]
+    rfl
+  · show ((lookOfKind (kindAt h pos)).startLine && hasStartLine N) = _
+    rw [lookOfKind_kindAt]
+    rfl
+
+/-- one `determinize` step, in terms of the Pike generation `Lr` of the source position -/
+theorem step_real {N : NFA} {cfg : Config} (hbrk : cfg.breakAtMatch = true) {h : Bytes} {pos : Nat} {S : DState}
+    {seeds : List Nat} (hsi : SI N h pos S seeds) (hlt : pos < h.size) :
+    step N cfg S (h.at pos) =
+      (if (moveLoop N (lookAfter (h.at pos)) (h.at pos) (containsMatch N (Lr N h pos seeds)) (Lr N h pos seeds) []).isEmpty ∧
+          containsMatch N (Lr N h pos seeds) = false then .dead
+       else if (moveLoop N (lookAfter (h.at pos)) (h.at pos) (containsMatch N (Lr N h pos seeds)) (Lr N h pos seeds) []).length
+          > cfg.detLimit then .limit
+       else .next { nfa := moveLoop N (lookAfter (h.at pos)) (h.at pos) (containsMatch N (Lr N h pos seeds)) (Lr N h pos seeds) [],
+                    isMatch := containsMatch N (Lr N h pos seeds), fromWord := isWordByte (h.at pos),
+                    lhText := false, lhLine := h.at pos == 10 && hasStartLine N }) := by
+  unfold step
+  simp only [resolved_real hsi hlt, hbrk, Bool.and_true]
+
+/-- the successor state stands at the next position, its seeds are the targets of the move -/
+theorem si_step (N : NFA) (h : Bytes) (pos : Nat) (L : List Nat) (brk isM : Bool) :
+    SI N h (pos + 1)
+      { nfa := moveLoop N (lookAfter (h.at pos)) (h.at pos) brk L [], isMatch := isM, fromWord := isWordByte (h.at pos),
+        lhText := false, lhLine := h.at pos == 10 && hasStartLine N }
+      (targets N (h.at pos) brk L) := by
+  refine ⟨?_, ?_, ?_, ?_⟩
+  · show moveLoop N (lookAfter (h.at pos)) (h.at pos) brk L [] = _
+    rw [moveLoop_eq_foldl, lookAfter_eq]
+  · simp
+  · simp
+  · show (h.at pos == 10 && hasStartLine N) = _
+    simp [lookOK, nat_beq_decide]
+
+theorem Lr_step (N : NFA) (h : Bytes) (pos : Nat) (L : List Nat) (brk : Bool) :
+    Lr N h (pos + 1) (targets N (h.at pos) brk L) = moveLoop N (lkReal h (pos + 1)) (h.at pos) brk L [] := by
+  unfold Lr
+  rw [moveLoop_eq_foldl]
 
 /-! ### the DFA loop is the generation-wise search -/
 
@@ -614,96 +741,86 @@ theorem matchAt_thr (N : NFA) (s p : Nat) (L : List Nat) :
   unfold Pike.matchAt
   rw [anyMatch_thr]
 
-theorem searchLoopU_eq_R {N : NFA} (hlfB : lookFreeB N = true) (hnr : Pike.NoRune N) (cfg : Config)
-    (hbrk : cfg.breakAtMatch = true) (h : Bytes) (s : Nat) :
-    ∀ (fuel pos : Nat) (S : DState) (last : Option Nat), fuel = h.size + 1 - pos → pos ≤ h.size →
-      Good N h pos s S.nfa →
-      searchLoopU N cfg h fuel pos S last = .gaveUp ∨
-      searchLoopU N cfg h fuel pos S last =
-        .ok ((Pike.R N h (List.replicate (h.size - pos) (Pike.clearVis N)) pos (thr N s S.nfa)).1.or last) := by
-  have hlf := lookFree_of_B hlfB
-  intro fuel
-  induction fuel with
-  | zero => intro pos S last hf hp; omega
-  | succ fuel ih =>
-    intro pos S last hf hp hg
-    rw [searchLoopU]
-    by_cases hlt : pos < h.size
-    · simp only [hlt, ↓reduceIte, hasWB_of_lookFree hlfB, Bool.false_and, Bool.false_eq_true]
-      have hrep : List.replicate (h.size - pos) (Pike.clearVis N) =
-          Pike.clearVis N :: List.replicate (h.size - (pos+1)) (Pike.clearVis N) := by
-        have : h.size - pos = (h.size - (pos+1)) + 1 := by omega
-        rw [this, List.replicate_succ]
-      obtain ⟨hn1, hn2⟩ := next_dfa hlf hnr h hlt s (lookAfter (h.at pos)) S.nfa
-      rw [hrep]
-      simp only [Pike.R]
-      rw [← hn1, matchAt_thr]
-      rw [step_lookFree hlfB cfg hbrk]
-      generalize moveLoop N (lookAfter (h.at pos)) (h.at pos) (containsMatch N S.nfa) S.nfa [] = ML at hn1 hn2 ⊢
-      by_cases hd : ML.isEmpty = true ∧ containsMatch N S.nfa = false
-      · -- dead
-        rw [if_pos hd]
-        right
-        have hnil : ML = [] := by simpa using hd.1
-        rw [hnil, hd.2]
-        have : thr N s [] = [] := rfl
-        rw [this, Pike.R_nil]
-        simp
-      · rw [if_neg hd]
-        by_cases hl : ML.length > cfg.detLimit
-        · rw [if_pos hl]; left; rfl
-        · rw [if_neg hl]
-          simp only
-          have := ih (pos+1) ⟨ML, containsMatch N S.nfa, isWordByte (h.at pos), false, false⟩
-            (if containsMatch N S.nfa then some pos else last) (by omega) (by omega) hn2
-          rcases this with hgu | hok
-          · left; exact hgu
-          · right
-            rw [hok]
-            simp only
-            cases hcm : containsMatch N S.nfa <;> simp
-    · have hpe : h.size - pos = 0 := by omega
-      simp only [hlt, ↓reduceIte]
-      rw [hpe, checkEOI_lookFree hlfB hg]
-      simp only [List.replicate_zero, Pike.R]
-      rw [matchAt_thr]
-      have hps : pos = h.size := by omega
+theorem sU_eq_R {N : NFA} (hnr : Pike.NoRune N) (cfg : Config) (hbrk : cfg.breakAtMatch = true) (h : Bytes) (s : Nat) :
+    ∀ (n pos : Nat) (S : DState) (seeds : List Nat) (last : Option Nat), n = h.size - pos → pos ≤ h.size →
+      SI N h pos S seeds → Good N h pos s (Lr N h pos seeds) →
+      sU N cfg h pos S last = .gaveUp ∨
+      sU N cfg h pos S last =
+        .ok ((Pike.R N h (List.replicate (h.size - pos) (Pike.clearVis N)) pos (thr N s (Lr N h pos seeds))).1.or last) := by
+  intro n
+  induction n with
+  | zero =>
+    intro pos S seeds last hn hp hsi hg
+    have hps : pos = h.size := by omega
+    have hlt : ¬ pos < h.size := by omega
+    rw [sU_ge hlt hp]
+    have hpe : h.size - pos = 0 := by omega
+    rw [hpe]
+    simp only [List.replicate_zero, Pike.R]
+    rw [matchAt_thr]
+    unfold checkEOI
+    rw [eoi_real_list hsi hps]
+    right
+    cases hcm : containsMatch N (Lr N h pos seeds) <;> simp [hps]
+  | succ n ih =>
+    intro pos S seeds last hn hp hsi hg
+    have hlt : pos < h.size := by omega
+    rw [sU_lt hlt, step_real hbrk hsi hlt]
+    have hrep : List.replicate (h.size - pos) (Pike.clearVis N) =
+        Pike.clearVis N :: List.replicate (h.size - (pos+1)) (Pike.clearVis N) := by
+      have : h.size - pos = (h.size - (pos+1)) + 1 := by omega
+      rw [this, List.replicate_succ]
+    obtain ⟨hn1, hn2⟩ := next_dfa hnr hlt s (LkEq.refl N (lkReal h (pos+1))) (Lr N h pos seeds)
+    rw [← Lr_step] at hn1 hn2
+    rw [hrep]
+    simp only [Pike.R]
+    rw [← hn1, matchAt_thr]
+    generalize hL : Lr N h pos seeds = L at *
+    generalize hML : moveLoop N (lookAfter (h.at pos)) (h.at pos) (containsMatch N L) L [] = ML
+    by_cases hd : ML.isEmpty = true ∧ containsMatch N L = false
+    · -- dead
+      rw [if_pos hd]
       right
-      cases hcm : containsMatch N S.nfa <;> simp [hps]
+      have hnil : ML = [] := by simpa using hd.1
+      rw [hnil, moveLoop_eq_foldl, foldl_closeSeed_eq_nil] at hML
+      have hLr : Lr N h (pos + 1) (targets N (h.at pos) (containsMatch N L) L) = [] := by
+        unfold Lr; rw [hML]; rfl
+      rw [hLr, hd.2]
+      have : thr N s [] = [] := rfl
+      rw [this, Pike.R_nil]
+      simp
+    · rw [if_neg hd]
+      by_cases hl : ML.length > cfg.detLimit
+      · rw [if_pos hl]; left; rfl
+      · rw [if_neg hl]
+        simp only
+        have hsi' := si_step N h pos L (containsMatch N L) (containsMatch N L)
+        rw [hML] at hsi'
+        have := ih (pos+1) _ _ (if containsMatch N L then some pos else last) (by omega) (by omega) hsi' hn2
+        rcases this with hgu | hok
+        · left; exact hgu
+        · right
+          rw [hok]
+          cases hcm : containsMatch N L <;> simp
 
 /-! ### anchored start state: one start position -/
 
-theorem anchoredLoopU_eq_searchLoopU {N : NFA} (hW : hasWB N = false) (cfg : Config) (h : Bytes) :
-    ∀ (fuel pos : Nat) (S : DState) (last : Option Nat),
-      anchoredLoopU N cfg h fuel pos S last = searchLoopU N cfg h fuel pos S last := by
-  intro fuel
-  induction fuel with
-  | zero => intro pos S last; rfl
-  | succ fuel ih =>
-    intro pos S last
-    rw [anchoredLoopU, searchLoopU]
-    simp only [hW, Bool.false_and, Bool.false_eq_true, ↓reduceIte]
-    split
-    · cases step N cfg S (h.at pos) with
-      | dead => rfl
-      | limit => rfl
-      | next T => exact ih ..
-    · rfl
+theorem Lr_single (N : NFA) (h : Bytes) (pos q0 : Nat) : Lr N h pos [q0] = epsilonClosure N [q0] (lkReal h pos) := rfl
 
 /-- (b), anchored: `SearchAtAnchored` without a cache reports the end the backtracker finds first from `at` -/
-theorem anchoredU_eq_bt {N : NFA} (hlfB : lookFreeB N = true) (hnrB : noRuneB N = true) (hsdB : sparseDisjointB N = true)
+theorem anchoredU_eq_bt {N : NFA} (hnrB : noRuneB N = true) (hsdB : sparseDisjointB N = true)
     (cfg : Config) (hbrk : cfg.breakAtMatch = true) (h : Bytes) {at_ : Nat} (hat : at_ ≤ h.size) :
     anchoredU N cfg h at_ = .gaveUp ∨ anchoredU N cfg h at_ = .ok (Pike.btFirst N h at_ at_) := by
   have hnr := noRune_of_B hnrB
-  unfold anchoredU
-  rw [anchoredLoopU_eq_searchLoopU (hasWB_of_lookFree hlfB)]
-  obtain ⟨e1, e2⟩ := good_start (lookFree_of_B hlfB) h at_ at_ (lookOfKind (kindAt h at_)) N.startAnchored
-  have hS : (startState N (kindAt h at_) true).nfa = epsilonClosure N [N.startAnchored] (lookOfKind (kindAt h at_)) := rfl
-  rcases searchLoopU_eq_R hlfB hnr cfg hbrk h at_ (h.size + 1 - at_) at_ (startState N (kindAt h at_) true) none rfl hat
-    (by rw [hS]; exact e2) with hg | hok
+  have hU : anchoredU N cfg h at_ = sU N cfg h at_ (startState N (kindAt h at_) true) none := rfl
+  rw [hU]
+  obtain ⟨e1, e2⟩ := good_start (LkEq.refl N (lkReal h at_)) at_ N.startAnchored
+  have hsi := si_start N h at_ true
+  simp only [↓reduceIte] at hsi
+  rcases sU_eq_R hnr cfg hbrk h at_ (h.size - at_) at_ _ _ none rfl hat hsi (by rw [Lr_single]; exact e2) with hg | hok
   · exact Or.inl hg
   · right
-    rw [hok, hS, e1, Pike.R_eq_bt (sparseDisjoint_of_B hsdB) (Or.inl hnr) (Nat.le_refl _) hat]
+    rw [hok, Lr_single, e1, Pike.R_eq_bt (sparseDisjoint_of_B hsdB) (Or.inl hnr) (Nat.le_refl _) hat]
     simp
 
 /-! ### the unanchored prefix -/
@@ -947,11 +1064,13 @@ theorem G_none {N : NFA} {a : Nat} (hp : PrefixOK N a) (hS : Pike.SparseDet N) (
     rw [G_skip hp hS hnr hb s (by omega) (fun j => hdead p j (Nat.le_refl _) (by omega))]
     exact ih (p+1) (by omega) (by omega) (fun i j hi hle => hdead i j (by omega) hle)
 
-/-- (b) THE UNCACHED LAZY DFA REPORTS THE END OF THE LEFTMOST-FIRST MATCH.  For an NFA without look-around and rune
-    states, with pairwise disjoint sparse ranges and the compiler's `(?s:.)*?` prefix as unanchored start, `searchAt`
-    without a cache either hits the determinization limit (NFA fallback) or returns exactly the end offset of the span
-    the bounded backtracker (priority DFS, leftmost start first) returns — and `none` exactly when that returns none. -/
-theorem searchAtU_eq_bt {N : NFA} (hlfB : lookFreeB N = true) (hnrB : noRuneB N = true) (hsdB : sparseDisjointB N = true)
+
+/-- (b) THE UNCACHED LAZY DFA REPORTS THE END OF THE LEFTMOST-FIRST MATCH — LOOK-AROUND INCLUDED.  For an NFA without
+    rune states, with pairwise disjoint sparse ranges and the compiler's `(?s:.)*?` prefix as unanchored start (any
+    assertions `\A \z ^ $ \b \B` anywhere), `searchAt` without a cache either hits the determinization limit (NFA
+    fallback) or returns exactly the end offset of the span the bounded backtracker (priority DFS, leftmost start first,
+    assertions evaluated by `lookOK` on the whole haystack) returns — and `none` exactly when that returns none. -/
+theorem searchAtU_eq_bt {N : NFA} (hnrB : noRuneB N = true) (hsdB : sparseDisjointB N = true)
     (hpB : prefixOKB N = true) (cfg : Config) (hbrk : cfg.breakAtMatch = true) {h : Bytes} (hb : BytesOK h) {at_ : Nat}
     (hat : at_ ≤ h.size) :
     searchAtU N cfg h at_ = .gaveUp ∨ searchAtU N cfg h at_ = .ok ((btSearchAt N h at_).map (·.2)) := by
@@ -967,17 +1086,20 @@ theorem searchAtU_eq_bt {N : NFA} (hlfB : lookFreeB N = true) (hnrB : noRuneB N 
     unfold alwaysAnchored at this
     exact hp.ne2 (by simpa using this)
   rw [if_neg hna]
-  have hS0 : (startState N (kindAt h at_) false).nfa = epsilonClosure N [N.startUnanchored] (lookOfKind (kindAt h at_)) := rfl
+  have hU : searchLoopU N cfg h (h.size + 1 - at_) at_ (startState N (kindAt h at_) false) none =
+      sU N cfg h at_ (startState N (kindAt h at_) false) none := rfl
+  rw [hU]
+  have hsi := si_start N h at_ false
+  simp only [Bool.false_eq_true, ↓reduceIte] at hsi
   -- the result in terms of `G`, for any thread label
-  have key : ∀ s, searchLoopU N cfg h (h.size + 1 - at_) at_ (startState N (kindAt h at_) false) none = .gaveUp ∨
-      searchLoopU N cfg h (h.size + 1 - at_) at_ (startState N (kindAt h at_) false) none = .ok (G N h s at_) := by
+  have key : ∀ s, sU N cfg h at_ (startState N (kindAt h at_) false) none = .gaveUp ∨
+      sU N cfg h at_ (startState N (kindAt h at_) false) none = .ok (G N h s at_) := by
     intro s
-    obtain ⟨e1, e2⟩ := good_start (lookFree_of_B hlfB) h at_ s (lookOfKind (kindAt h at_)) N.startUnanchored
-    rcases searchLoopU_eq_R hlfB hnr cfg hbrk h s (h.size + 1 - at_) at_ (startState N (kindAt h at_) false) none rfl hat
-      (by rw [hS0]; exact e2) with hg | hok
+    obtain ⟨e1, e2⟩ := good_start (LkEq.refl N (lkReal h at_)) s N.startUnanchored
+    rcases sU_eq_R hnr cfg hbrk h s (h.size - at_) at_ _ _ none rfl hat hsi (by rw [Lr_single]; exact e2) with hg | hok
     · exact Or.inl hg
     · right
-      rw [hok, hS0, e1]
+      rw [hok, Lr_single, e1]
       unfold G
       simp
   cases hbt : btSearchAt N h at_ with
@@ -1000,6 +1122,7 @@ theorem searchAtU_eq_bt {N : NFA} (hlfB : lookFreeB N = true) (hnrB : noRuneB N 
 
 /-! ### (c) `IsMatch` -/
 
+
 theorem G_eq_bt {N : NFA} (hnrB : noRuneB N = true) (hsdB : sparseDisjointB N = true) (hpB : prefixOKB N = true)
     {h : Bytes} (hb : BytesOK h) {at_ : Nat} (hat : at_ ≤ h.size) :
     ∃ s, G N h s at_ = (btSearchAt N h at_).map (·.2) := by
@@ -1017,61 +1140,72 @@ theorem G_eq_bt {N : NFA} (hnrB : noRuneB N = true) (hsdB : sparseDisjointB N = 
     have bfirst : Pike.btFirst N h at_ s0 = some e := Pike.btSearchFrom_first N h at_ _ _ s0 e hbt
     exact ⟨s0, by rw [G_before hp hS hnr hb s0 (by omega) _ at_ rfl b1 bleft, G_hit hp hd hnr b1 (by omega) bfirst]; rfl⟩
 
-theorem earliestLoopU_eq_R {N : NFA} (hlfB : lookFreeB N = true) (hnr : Pike.NoRune N) (cfg : Config)
-    (hbrk : cfg.breakAtMatch = true) (h : Bytes) (s : Nat) :
-    ∀ (fuel pos : Nat) (S : DState), fuel = h.size + 1 - pos → pos ≤ h.size → Good N h pos s S.nfa →
-      earliestLoopU N cfg h fuel pos S = .gaveUp ∨
-      earliestLoopU N cfg h fuel pos S =
-        .ok (Pike.R N h (List.replicate (h.size - pos) (Pike.clearVis N)) pos (thr N s S.nfa)).1.isSome := by
-  have hlf := lookFree_of_B hlfB
-  intro fuel
-  induction fuel with
-  | zero => intro pos S hf hp; omega
-  | succ fuel ih =>
-    intro pos S hf hp hg
-    rw [earliestLoopU]
-    by_cases hlt : pos < h.size
-    · simp only [hlt, ↓reduceIte, hasWB_of_lookFree hlfB, Bool.false_and, Bool.false_eq_true]
-      have hrep : List.replicate (h.size - pos) (Pike.clearVis N) =
-          Pike.clearVis N :: List.replicate (h.size - (pos+1)) (Pike.clearVis N) := by
-        have : h.size - pos = (h.size - (pos+1)) + 1 := by omega
-        rw [this, List.replicate_succ]
-      obtain ⟨hn1, hn2⟩ := next_dfa hlf hnr h hlt s (lookAfter (h.at pos)) S.nfa
-      rw [hrep]
-      simp only [Pike.R]
-      rw [← hn1, matchAt_thr]
-      rw [step_lookFree hlfB cfg hbrk]
-      generalize moveLoop N (lookAfter (h.at pos)) (h.at pos) (containsMatch N S.nfa) S.nfa [] = ML at hn1 hn2 ⊢
-      by_cases hd : ML.isEmpty = true ∧ containsMatch N S.nfa = false
-      · rw [if_pos hd]
-        right
-        have hnil : ML = [] := by simpa using hd.1
-        rw [hnil, hd.2]
-        have : thr N s [] = [] := rfl
-        rw [this, Pike.R_nil]
-        simp
-      · rw [if_neg hd]
-        by_cases hl : ML.length > cfg.detLimit
-        · rw [if_pos hl]; left; rfl
-        · rw [if_neg hl]
-          simp only
-          cases hcm : containsMatch N S.nfa with
-          | true =>
-            right
-            simp
-          | false =>
-            simp only [Bool.false_eq_true, ↓reduceIte, Option.or_none]
-            exact ih (pos+1) ⟨ML, false, isWordByte (h.at pos), false, false⟩ (by omega) (by omega) hn2
-    · have hpe : h.size - pos = 0 := by omega
-      simp only [hlt, ↓reduceIte]
-      rw [hpe, checkEOI_lookFree hlfB hg]
-      simp only [List.replicate_zero, Pike.R]
-      rw [matchAt_thr]
+
+theorem eU_eq_R {N : NFA} (hnr : Pike.NoRune N) (cfg : Config) (hbrk : cfg.breakAtMatch = true) (h : Bytes) (s : Nat) :
+    ∀ (n pos : Nat) (S : DState) (seeds : List Nat), n = h.size - pos → pos ≤ h.size →
+      SI N h pos S seeds → Good N h pos s (Lr N h pos seeds) →
+      eU N cfg h pos S = .gaveUp ∨
+      eU N cfg h pos S =
+        .ok (Pike.R N h (List.replicate (h.size - pos) (Pike.clearVis N)) pos (thr N s (Lr N h pos seeds))).1.isSome := by
+  intro n
+  induction n with
+  | zero =>
+    intro pos S seeds hn hp hsi hg
+    have hps : pos = h.size := by omega
+    have hlt : ¬ pos < h.size := by omega
+    rw [eU_ge hlt hp]
+    have hpe : h.size - pos = 0 := by omega
+    rw [hpe]
+    simp only [List.replicate_zero, Pike.R]
+    rw [matchAt_thr]
+    unfold checkEOI
+    rw [eoi_real_list hsi hps]
+    right
+    cases hcm : containsMatch N (Lr N h pos seeds) <;> simp
+  | succ n ih =>
+    intro pos S seeds hn hp hsi hg
+    have hlt : pos < h.size := by omega
+    rw [eU_lt hlt, step_real hbrk hsi hlt]
+    have hrep : List.replicate (h.size - pos) (Pike.clearVis N) =
+        Pike.clearVis N :: List.replicate (h.size - (pos+1)) (Pike.clearVis N) := by
+      have : h.size - pos = (h.size - (pos+1)) + 1 := by omega
+      rw [this, List.replicate_succ]
+    obtain ⟨hn1, hn2⟩ := next_dfa hnr hlt s (LkEq.refl N (lkReal h (pos+1))) (Lr N h pos seeds)
+    rw [← Lr_step] at hn1 hn2
+    rw [hrep]
+    simp only [Pike.R]
+    rw [← hn1, matchAt_thr]
+    generalize hL : Lr N h pos seeds = L at *
+    generalize hML : moveLoop N (lookAfter (h.at pos)) (h.at pos) (containsMatch N L) L [] = ML
+    by_cases hd : ML.isEmpty = true ∧ containsMatch N L = false
+    · rw [if_pos hd]
       right
-      cases hcm : containsMatch N S.nfa <;> simp
+      have hnil : ML = [] := by simpa using hd.1
+      rw [hnil, moveLoop_eq_foldl, foldl_closeSeed_eq_nil] at hML
+      have hLr : Lr N h (pos + 1) (targets N (h.at pos) (containsMatch N L) L) = [] := by
+        unfold Lr; rw [hML]; rfl
+      rw [hLr, hd.2]
+      have : thr N s [] = [] := rfl
+      rw [this, Pike.R_nil]
+      simp
+    · rw [if_neg hd]
+      by_cases hl : ML.length > cfg.detLimit
+      · rw [if_pos hl]; left; rfl
+      · rw [if_neg hl]
+        simp only
+        cases hcm : containsMatch N L with
+        | true =>
+          right
+          simp
+        | false =>
+          simp only [Bool.false_eq_true, ↓reduceIte, Option.or_none]
+          have hsi' := si_step N h pos L (containsMatch N L) (containsMatch N L)
+          rw [hML, hcm] at hsi'
+          rw [hcm] at hn2
+          exact ih (pos+1) _ _ (by omega) (by omega) hsi' hn2
 
 /-- (c) `searchEarliestMatch` without a cache answers whether the reference finds a match at or after `at` -/
-theorem earliestU_eq_bt {N : NFA} (hlfB : lookFreeB N = true) (hnrB : noRuneB N = true) (hsdB : sparseDisjointB N = true)
+theorem earliestU_eq_bt {N : NFA} (hnrB : noRuneB N = true) (hsdB : sparseDisjointB N = true)
     (hpB : prefixOKB N = true) (cfg : Config) (hbrk : cfg.breakAtMatch = true) {h : Bytes} (hb : BytesOK h) {at_ : Nat}
     (hat : at_ ≤ h.size) :
     earliestU N cfg h at_ = .gaveUp ∨ earliestU N cfg h at_ = .ok (btSearchAt N h at_).isSome := by
@@ -1086,17 +1220,21 @@ theorem earliestU_eq_bt {N : NFA} (hlfB : lookFreeB N = true) (hnrB : noRuneB N 
     unfold alwaysAnchored at this
     exact hp.ne2 (by simpa using this)
   rw [if_neg hna]
-  have hS0 : (startState N (kindAt h at_) false).nfa = epsilonClosure N [N.startUnanchored] (lookOfKind (kindAt h at_)) := rfl
-  obtain ⟨e1, e2⟩ := good_start (lookFree_of_B hlfB) h at_ s (lookOfKind (kindAt h at_)) N.startUnanchored
-  rcases earliestLoopU_eq_R hlfB hnr cfg hbrk h s (h.size + 1 - at_) at_ (startState N (kindAt h at_) false) rfl hat
-    (by rw [hS0]; exact e2) with hg | hok
+  have hU : earliestLoopU N cfg h (h.size + 1 - at_) at_ (startState N (kindAt h at_) false) =
+      eU N cfg h at_ (startState N (kindAt h at_) false) := rfl
+  rw [hU]
+  have hsi := si_start N h at_ false
+  simp only [Bool.false_eq_true, ↓reduceIte] at hsi
+  obtain ⟨e1, e2⟩ := good_start (LkEq.refl N (lkReal h at_)) s N.startUnanchored
+  rcases eU_eq_R hnr cfg hbrk h s (h.size - at_) at_ _ _ rfl hat hsi (by rw [Lr_single]; exact e2) with hg | hok
   · exact Or.inl hg
   · right
-    rw [hok, hS0, e1]
+    rw [hok, Lr_single, e1]
     have : (Pike.R N h (List.replicate (h.size - at_) (Pike.clearVis N)) at_
         (Pike.addThread N h at_ ⟨N.startUnanchored, s⟩ (Pike.clearVis N, [])).2).1 = G N h s at_ := rfl
     rw [this, hG]
     cases btSearchAt N h at_ <;> rfl
+
 
 /-- the reference finds a match at or after `at` iff some span starting there is accepted -/
 theorem bt_isSome_iff (N : NFA) (h : Bytes) {at_ : Nat} (hat : at_ ≤ h.size) :
@@ -1114,213 +1252,9 @@ theorem bt_isSome_iff (N : NFA) (h : Bytes) {at_ : Nat} (hat : at_ ≤ h.size) :
     | none => exact absurd h3 ((btSearchAt_leftmost N h at_ hat).2 hbt i j h1 h2)
     | some r => rfl
 
-/-! ### a checkable sufficient condition for `ClassSound` -/
-
-theorem succs_lookFree {N : NFA} (hlf : LookFree N) (lk lk' : LookSet) (q : Nat) : succs N lk q = succs N lk' q := by
-  unfold succs
-  cases hq : N.get q with
-  | look k nx => exact absurd hq (hlf q k nx)
-  | _ => rfl
-
-theorem closeSeed_lookFree {N : NFA} (hlf : LookFree N) (lk lk' : LookSet) (res : List Nat) (seed : Nat) :
-    closeSeed N lk res seed = closeSeed N lk' res seed :=
-  closureInto_congr (succs_lookFree hlf lk lk') _ _ _
-
-/-- bytes of one class are inside or outside every byte range of the automaton together -/
-def ClassCompat (N : NFA) (cls : Nat → Nat) : Prop :=
-  ∀ b b', b < 256 → b' < 256 → cls b = cls b' → ∀ q, stateAgree b b' (N.get q) = true
-
-theorem classCompat_of_B {N : NFA} {cls : Nat → Nat} (hc : classCompatB N cls = true) : ClassCompat N cls := by
-  intro b b' hb hb' hk q
-  unfold classCompatB at hc
-  rw [List.all_eq_true] at hc
-  have h1 := hc b (List.mem_range.mpr hb)
-  rw [List.all_eq_true] at h1
-  have h2 := h1 b' (List.mem_range.mpr hb')
-  simp only [Bool.or_eq_true, bne_iff_ne, ne_eq, List.all_eq_true] at h2
-  rcases h2 with h2 | h2
-  · exact absurd hk h2
-  · by_cases hq : N.get q = .fail
-    · rw [hq]; rfl
-    · exact h2 _ (get_mem_of_ne_fail hq)
-
-theorem rangeAgree_refl (lo hi b : Nat) : rangeAgree lo hi b b = true := by simp [rangeAgree]
-
-theorem rangeAgree_symm {lo hi b b' : Nat} (h : rangeAgree lo hi b b' = true) : rangeAgree lo hi b' b = true := by
-  unfold rangeAgree at h ⊢
-  exact decide_eq_true (of_decide_eq_true h).symm
-
-theorem rangeAgree_trans {lo hi a b c : Nat} (h1 : rangeAgree lo hi a b = true) (h2 : rangeAgree lo hi b c = true) :
-    rangeAgree lo hi a c = true := by
-  unfold rangeAgree at h1 h2 ⊢
-  exact decide_eq_true ((of_decide_eq_true h1).trans (of_decide_eq_true h2))
-
-theorem stateAgree_refl (b : Nat) (s : NState) : stateAgree b b s = true := by
-  cases s <;> simp [stateAgree, rangeAgree_refl]
-
-theorem stateAgree_symm {b b' : Nat} {s : NState} (h : stateAgree b b' s = true) : stateAgree b' b s = true := by
-  cases s with
-  | byteRange lo hi nx => exact rangeAgree_symm h
-  | sparse ts =>
-    simp only [stateAgree, List.all_eq_true] at h ⊢
-    exact fun t ht => rangeAgree_symm (h t ht)
-  | _ => rfl
-
-theorem stateAgree_trans {a b c : Nat} {s : NState} (h1 : stateAgree a b s = true) (h2 : stateAgree b c s = true) :
-    stateAgree a c s = true := by
-  cases s with
-  | byteRange lo hi nx => exact rangeAgree_trans h1 h2
-  | sparse ts =>
-    simp only [stateAgree, List.all_eq_true] at h1 h2 ⊢
-    exact fun t ht => rangeAgree_trans (h1 t ht) (h2 t ht)
-  | _ => rfl
-
-theorem classCompat_of_step {N : NFA} {cls : Nat → Nat} (hc : classStepB N cls = true) : ClassCompat N cls := by
-  unfold classStepB at hc
-  simp only [List.all_eq_true, List.mem_range, Bool.and_eq_true, decide_eq_true_eq, Bool.or_eq_true, bne_iff_ne, ne_eq] at hc
-  have hmono : ∀ d i, i + d < 256 → cls i ≤ cls (i + d) := by
-    intro d
-    induction d with
-    | zero => intro i _; exact Nat.le_refl _
-    | succ d ih =>
-      intro i hi
-      have h1 := ih i (by omega)
-      have h2 := (hc (i + d) (by omega)).1
-      have : i + (d + 1) = i + d + 1 := by omega
-      rw [this]
-      omega
-  have hup : ∀ d b, b + d < 256 → cls b = cls (b + d) → ∀ q, stateAgree b (b + d) (N.get q) = true := by
-    intro d
-    induction d with
-    | zero => intro b _ _ q; exact stateAgree_refl _ _
-    | succ d ih =>
-      intro b hb hk q
-      have hm1 := hmono 1 b (by omega)
-      have hm2 := hmono d (b + 1) (by omega)
-      have he : b + 1 + d = b + (d + 1) := by omega
-      rw [he] at hm2
-      have hk1 : cls b = cls (b + 1) := by omega
-      have hstep : stateAgree b (b + 1) (N.get q) = true := by
-        rcases (hc b (by omega)).2 with h' | h'
-        · exact absurd hk1 h'
-        · by_cases hq : N.get q = .fail
-          · rw [hq]; rfl
-          · exact h' _ (get_mem_of_ne_fail hq)
-      have hrest := ih (b + 1) (by omega) (by rw [he]; omega) q
-      rw [he] at hrest
-      exact stateAgree_trans hstep hrest
-  intro b b' hb hb' hk q
-  by_cases hle : b ≤ b'
-  · have := hup (b' - b) b (by omega) (by rw [show b + (b' - b) = b' by omega]; exact hk) q
-    rw [show b + (b' - b) = b' by omega] at this
-    exact this
-  · have := hup (b - b') b' (by omega) (by rw [show b' + (b - b') = b by omega]; exact hk.symm) q
-    rw [show b' + (b - b') = b by omega] at this
-    exact stateAgree_symm this
-
-theorem rangeAgree_iff {lo hi b b' : Nat} (h : rangeAgree lo hi b b' = true) : (lo ≤ b ∧ b ≤ hi) ↔ (lo ≤ b' ∧ b' ≤ hi) := by
-  unfold rangeAgree at h
-  exact of_decide_eq_true h
-
-theorem sparseInto_compat {N : NFA} (hlf : LookFree N) (lk lk' : LookSet) {b b' : Nat} :
-    ∀ (ts : List (Nat × Nat × Nat)) (res : List Nat), (ts.all fun t => rangeAgree t.1 t.2.1 b b') = true →
-      sparseInto N lk b ts res = sparseInto N lk' b' ts res := by
-  intro ts
-  induction ts with
-  | nil => intro res _; rfl
-  | cons t ts ih =>
-    intro res hall
-    obtain ⟨lo, hi, nx⟩ := t
-    simp only [List.all_cons, Bool.and_eq_true] at hall
-    have hiff := rangeAgree_iff hall.1
-    simp only [sparseInto]
-    by_cases hin : lo ≤ b ∧ b ≤ hi
-    · rw [if_pos hin, if_pos (hiff.mp hin), closeSeed_lookFree hlf lk lk']
-      exact ih _ hall.2
-    · rw [if_neg hin, if_neg (fun hh => hin (hiff.mpr hh))]
-      exact ih _ hall.2
-
-theorem moveLoop_compat {N : NFA} (hlf : LookFree N) (lk lk' : LookSet) {b b' : Nat}
-    (hag : ∀ q, stateAgree b b' (N.get q) = true) (brk : Bool) :
-    ∀ (L res : List Nat), moveLoop N lk b brk L res = moveLoop N lk' b' brk L res := by
-  intro L
-  induction L with
-  | nil => intro res; rfl
-  | cons q qs ih =>
-    intro res
-    have hq := hag q
-    rw [moveLoop, moveLoop]
-    cases hg : N.get q with
-    | mtch => simp only; split
-              · rfl
-              · exact ih res
-    | byteRange lo hi nx =>
-      rw [hg] at hq
-      have hiff := rangeAgree_iff (show rangeAgree lo hi b b' = true from hq)
-      simp only
-      by_cases hin : lo ≤ b ∧ b ≤ hi
-      · rw [if_pos hin, if_pos (hiff.mp hin), closeSeed_lookFree hlf lk lk']
-        exact ih _
-      · rw [if_neg hin, if_neg (fun hh => hin (hiff.mpr hh))]
-        exact ih _
-    | sparse ts =>
-      rw [hg] at hq
-      simp only
-      rw [sparseInto_compat hlf lk lk' ts res hq]
-      exact ih _
-    | _ => exact ih res
-
-/-- for automata without look-around, byte classes that respect every byte range make the memo table sound -/
-theorem classSound_of_compat {N : NFA} (hlfB : lookFreeB N = true) (cfg : Config) (hbrk : cfg.breakAtMatch = true)
-    (hc : ClassCompat N cfg.cls) : ClassSound N cfg := by
-  intro S b b' hb hb' hk
-  have hlf := lookFree_of_B hlfB
-  have hml := moveLoop_compat hlf (lookAfter b) (lookAfter b') (hc b b' hb hb' hk) (containsMatch N S.nfa) S.nfa []
-  rw [step_lookFree hlfB cfg hbrk, step_lookFree hlfB cfg hbrk, hml]
-  constructor
-  · intro hd
-    split at hd
-    · rename_i h1; rw [if_pos h1]
-    · split at hd <;> cases hd
-  · intro T hT
-    split at hT
-    · cases hT
-    · rename_i h1
-      rw [if_neg h1]
-      split at hT
-      · cases hT
-      · rename_i h2
-        rw [if_neg h2]
-        cases hT
-        exact ⟨_, rfl, rfl, rfl⟩
 
 /-! ### `at = len`: the empty match -/
 
-theorem step_eps_transfer {N : NFA} (hlf : LookFree N) {h h' : Bytes} {q q' p p' : Nat} (hs : Step N h (q, p) (q', p)) :
-    Step N h' (q, p') (q', p') := by
-  have hi := step_inv hs
-  cases hq : N.get q with
-  | mtch => rw [hq] at hi; exact hi.elim
-  | fail => rw [hq] at hi; exact hi.elim
-  | byteRange lo hi' nx => rw [hq] at hi; simp only at hi; omega
-  | sparse ts => rw [hq] at hi; simp only at hi; omega
-  | split l r =>
-    rw [hq] at hi
-    simp only at hi
-    rcases hi.1 with rfl | rfl
-    · exact Step.splitL hq
-    · exact Step.splitR hq
-  | eps nx => rw [hq] at hi; simp only at hi; rw [hi.1]; exact Step.eps hq
-  | cap i st nx => rw [hq] at hi; simp only at hi; rw [hi.1]; exact Step.cap hq
-  | look k nx => exact absurd hq (hlf q k nx)
-  | runeAny nx => rw [hq] at hi; simp only at hi; omega
-  | runeAnyNotNL nx => rw [hq] at hi; simp only at hi; omega
-
-theorem epsReach_transfer {N : NFA} (hlf : LookFree N) {h h' : Bytes} {p p' a b : Nat}
-    (e : Pike.EpsReach N h p a b) : Pike.EpsReach N h' p' a b := by
-  induction e with
-  | refl q => exact Pike.EpsReach.refl q
-  | cons st _ ih => exact Pike.EpsReach.cons (step_eps_transfer hlf st) ih
 
 theorem accepts_empty_iff {N : NFA} (h : Bytes) (p : Nat) (hp : p ≤ h.size) :
     Accepts N h p p ↔ ∃ m, Pike.EpsReach N h p N.startAnchored m ∧ N.get m = .mtch := by
@@ -1330,15 +1264,56 @@ theorem accepts_empty_iff {N : NFA} (h : Bytes) (p : Nat) (hp : p ≤ h.size) :
   · intro ⟨m, he, hm⟩
     exact ⟨m, he.steps, hm, Pike.get_lt_of_ne_fail (by rw [hm]; simp)⟩
 
-/-- `matchesEmpty` (the Pike VM on the empty haystack) agrees with the reference at `at = len` when there is no
-    look-around -/
-theorem matchesEmptyU_iff {N : NFA} (hlf : LookFree N) (h : Bytes) :
-    matchesEmptyU N = true ↔ Accepts N h h.size h.size := by
-  unfold matchesEmptyU
-  rw [Pike.matchesEmptyAt_iff, accepts_empty_iff h h.size (Nat.le_refl _)]
+
+theorem emptyLook_real (N : NFA) (h : Bytes) : LkEq N (emptyLook h h.size) (lkReal h h.size) := by
+  apply lkEq_of_agree
+  intro q k nx _
+  cases k with
+  | startText => simp [emptyLook, lkReal, LookSet.contains, lookOK, nat_beq_decide]
+  | endText => simp [emptyLook, lkReal, LookSet.contains, lookOK]
+  | startLine =>
+    by_cases h0 : h.size = 0
+    · simp [emptyLook, lkReal, LookSet.contains, lookOK, h0]
+    · have : h.size > 0 := by omega
+      simp [emptyLook, lkReal, LookSet.contains, lookOK, h0, this, nat_beq_decide]
+  | endLine => simp [emptyLook, lkReal, LookSet.contains, lookOK]
+  | wordB =>
+    by_cases h0 : h.size = 0
+    · simp [emptyLook, lkReal, LookSet.contains, lookOK, h0]
+    · have : h.size > 0 := by omega
+      simp [emptyLook, lkReal, LookSet.contains, lookOK, h0, this]
+  | noWordB =>
+    by_cases h0 : h.size = 0
+    · simp [emptyLook, lkReal, LookSet.contains, lookOK, h0]
+    · have : h.size > 0 := by omega
+      simp [emptyLook, lkReal, LookSet.contains, lookOK, h0, this]
+
+/-- `matchesEmptyAt(haystack, len)`: one closure under the real look set of the end position — exactly "the empty
+    string at `len` is accepted", for every NFA -/
+theorem matchesEmptyAt_iff (N : NFA) (h : Bytes) : matchesEmptyAt N h h.size = true ↔ Accepts N h h.size h.size := by
+  rw [accepts_empty_iff h h.size (Nat.le_refl _)]
+  unfold matchesEmptyAt
+  rw [epsilonClosure_congr (emptyLook_real N h)]
+  obtain ⟨e1, vis, hrel, _⟩ := good_start (LkEq.refl N (lkReal h h.size)) 0 N.startAnchored
+  obtain ⟨g, _, hmark, new, hnew, hprop⟩ := Pike.addThread_spec (Pike.genOK_clear N h h.size) ⟨N.startAnchored, 0⟩
+  simp only [List.nil_append] at hnew
+  rw [← anyMatch_thr N 0, e1, Pike.anyMatch_iff]
   constructor
-  · intro ⟨m, he, hm⟩; exact ⟨m, epsReach_transfer hlf he, hm⟩
-  · intro ⟨m, he, hm⟩; exact ⟨m, epsReach_transfer hlf he, hm⟩
+  · intro ⟨t, ht, hm⟩
+    rw [hnew] at ht
+    obtain ⟨_, hreach, _⟩ := hprop t ht
+    exact ⟨t.state, hreach, (Pike.isMatchState_iff N _).mp hm⟩
+  · intro ⟨m, hreach, hm⟩
+    have hmlt : m < N.states.size := Pike.get_lt_of_ne_fail (by rw [hm]; simp)
+    have hmm : Pike.Marked (Pike.addThread N h h.size ⟨N.startAnchored, 0⟩ (Pike.clearVis N, [])).1 m :=
+      Pike.closed_reach g.closed hreach hmark
+    have hterm : Pike.Terminal N m := by
+      unfold Pike.Terminal
+      rw [hm]
+      trivial
+    obtain ⟨t, ht, hts⟩ := g.covered m hmlt hmm hterm
+    exact ⟨t, ht, by rw [hts]; exact (Pike.isMatchState_iff N m).mpr hm⟩
+
 
 theorem bt_at_end {N : NFA} (h : Bytes) :
     (Accepts N h h.size h.size → (btSearchAt N h h.size).map (·.2) = some h.size) ∧
@@ -1355,60 +1330,131 @@ theorem bt_at_end {N : NFA} (h : Bytes) :
     subst hs; subst he
     exact ⟨fun _ => rfl, fun hn => absurd b4 hn⟩
 
-/-- (b) at `at = len`, uncached -/
-theorem apiSearchAtU_end {N : NFA} (hlfB : lookFreeB N = true) (cfg : Config) (h : Bytes) :
+
+/-- (b) at `at = len`, for every NFA -/
+theorem apiSearchAtU_end (N : NFA) (cfg : Config) (h : Bytes) :
     apiSearchAtU N cfg h h.size = .ok ((btSearchAt N h h.size).map (·.2)) := by
   unfold apiSearchAtU
   rw [if_neg (by omega), if_pos rfl]
   by_cases ha : Accepts N h h.size h.size
-  · rw [(bt_at_end h).1 ha, if_pos ((matchesEmptyU_iff (lookFree_of_B hlfB) h).mpr ha)]
+  · rw [(bt_at_end h).1 ha, if_pos ((matchesEmptyAt_iff N h).mpr ha)]
   · rw [(bt_at_end h).2 ha]
-    have : ¬ (matchesEmptyU N = true) := fun hm => ha ((matchesEmptyU_iff (lookFree_of_B hlfB) h).mp hm)
+    have : ¬ (matchesEmptyAt N h h.size = true) := fun hm => ha ((matchesEmptyAt_iff N h).mp hm)
     rw [if_neg this]
 
-/-- the state rebuilt in row 0 after a clear contains a match state only if the empty string matches -/
-theorem row0_match_empty {N : NFA} (hlfB : lookFreeB N = true) {a : Nat} (hp : PrefixOK N a)
-    (hm : containsMatch N (startState N .text false).nfa = true) : matchesEmptyU N = true := by
-  have hlf := lookFree_of_B hlfB
-  obtain ⟨hi, _, hany⟩ := hp.any
-  obtain ⟨e1, _⟩ := good_start hlf #[] 0 0 (lookOfKind .text) N.startUnanchored
-  have hS : (startState N .text false).nfa = epsilonClosure N [N.startUnanchored] (lookOfKind .text) := rfl
-  rw [hS] at hm
-  unfold containsMatch at hm
-  rw [List.any_eq_true] at hm
-  obtain ⟨m, hmem, hmm⟩ := hm
-  have hmt : mk 0 m ∈ thr N 0 (epsilonClosure N [N.startUnanchored] (lookOfKind .text)) :=
-    mem_thr_of hmem (isMatch_termB hmm)
-  rw [e1, prefix_queue hp] at hmt
-  rcases List.mem_append.mp hmt with h1 | h1
-  · obtain ⟨_, _, _, new, hnew, hprop⟩ := Pike.addThread_spec (Pike.genOK_clear N #[] 0) ⟨N.startAnchored, 0⟩
-    rw [hnew] at h1
-    simp only [List.nil_append] at h1
-    obtain ⟨_, hreach, _⟩ := hprop _ h1
-    unfold matchesEmptyU
-    rw [Pike.matchesEmptyAt_iff]
-    exact ⟨m, hreach, (Pike.isMatchState_iff N m).mp hmm⟩
-  · simp only [List.mem_singleton] at h1
-    have : m = a := by
-      have := congrArg Pike.Thread.state h1
-      simpa [mk] using this
-    rw [this, not_match_any hany] at hmm
-    cases hmm
+/-! ### always-anchored automata (`\A…`: no unanchored prefix) -/
 
-/-- `matchesEmpty(cache)` does not depend on the cache -/
-theorem matchesEmptyC_eq {N : NFA} (hlfB : lookFreeB N = true) (hpB : prefixOKB N = true) {cfg : Config} {c : Cache}
-    (hI : Inv N cfg c) : matchesEmptyC N c = matchesEmptyU N := by
-  obtain ⟨a, hp⟩ := prefixOK_of_B hpB
-  unfold matchesEmptyC
-  cases hg : c.getState { off := 0 } with
-  | none => rfl
-  | some cs =>
-    simp only
-    split
-    · rename_i hm
-      have h0 : c.list.getD 0 none = some cs := getState_some hg
-      rw [hI.row0st cs h0] at hm
-      exact (row0_match_empty hlfB hp hm).symm
-    · rfl
+theorem steps_head {N : NFA} {h : Bytes} {a b : Nat × Nat} (s : Steps N h a b) : a = b ∨ ∃ c, Step N h a c := by
+  cases s with
+  | refl c => exact Or.inl rfl
+  | cons st _ => exact Or.inr ⟨_, st⟩
+
+theorem no_accept_after_start {N : NFA} (hh : anchoredHeadB N = true) {h : Bytes} {i j : Nat} (hi : 0 < i) :
+    ¬ Accepts N h i j := by
+  unfold anchoredHeadB at hh
+  simp only [Bool.and_eq_true] at hh
+  obtain ⟨_, hlook⟩ := hh
+  intro ⟨m, hs, hm, _⟩
+  rcases steps_head hs with heq | ⟨c, st⟩
+  · have : N.startAnchored = m := (Prod.mk.inj heq).1
+    rw [this, hm] at hlook
+    cases hlook
+  · obtain ⟨q', p'⟩ := c
+    have hinv := step_inv st
+    cases hg : N.get N.startAnchored with
+    | look k nx =>
+      rw [hg] at hinv hlook
+      cases k <;> simp at hlook
+      simp only [lookOK, decide_eq_true_eq] at hinv
+      omega
+    | _ => rw [hg] at hlook; cases hlook
+
+theorem startState_anchored_eq {N : NFA} (ha : alwaysAnchored N = true) (kind : StartKind) :
+    startState N kind false = startState N kind true := by
+  unfold alwaysAnchored at ha
+  have : N.startAnchored = N.startUnanchored := by simpa using ha
+  unfold startState
+  simp [this]
+
+/-- the reference on an always-anchored automaton: only start position 0 can match -/
+theorem bt_anchored_head {N : NFA} (hh : anchoredHeadB N = true) (h : Bytes) :
+    (btSearchAt N h 0).map (·.2) = Pike.btFirst N h 0 0 ∧ ∀ at_, 0 < at_ → btSearchAt N h at_ = none := by
+  have hpos : ∀ at_, 0 < at_ → btSearchAt N h at_ = none := by
+    intro at_ hat
+    cases hbt : btSearchAt N h at_ with
+    | none => rfl
+    | some r =>
+      obtain ⟨s, e⟩ := r
+      obtain ⟨b1, _, _, b4⟩ := btSearchAt_sound N h at_ s e hbt
+      exact absurd b4 (no_accept_after_start hh (by omega))
+  refine ⟨?_, hpos⟩
+  cases hbf : Pike.btFirst N h 0 0 with
+  | none =>
+    have hno := Pike.btFirst_complete (Nat.le_refl 0) (Nat.zero_le _) hbf
+    cases hbt : btSearchAt N h 0 with
+    | none => rfl
+    | some r =>
+      obtain ⟨s, e⟩ := r
+      obtain ⟨_, _, _, b4⟩ := btSearchAt_sound N h 0 s e hbt
+      by_cases hs : s = 0
+      · subst hs; exact absurd ⟨e, b4⟩ hno
+      · exact absurd b4 (no_accept_after_start hh (by omega))
+  | some e =>
+    unfold Pike.btFirst at hbf
+    unfold btSearchAt
+    have : h.size + 2 - 0 = (h.size + 1) + 1 := by omega
+    rw [this, btSearchFrom]
+    simp only [Nat.not_lt_zero, gt_iff_lt, ↓reduceIte, hbf, Option.map_some]
+
+/-- (b) for always-anchored automata (no prefix; the start state is `\A`), look-around included -/
+theorem searchAtU_eq_bt_anchored {N : NFA} (hnrB : noRuneB N = true) (hsdB : sparseDisjointB N = true)
+    (hh : anchoredHeadB N = true) (cfg : Config) (hbrk : cfg.breakAtMatch = true) {h : Bytes} {at_ : Nat}
+    (hat : at_ ≤ h.size) :
+    searchAtU N cfg h at_ = .gaveUp ∨ searchAtU N cfg h at_ = .ok ((btSearchAt N h at_).map (·.2)) := by
+  have ha : alwaysAnchored N = true := by
+    unfold anchoredHeadB at hh
+    simp only [Bool.and_eq_true] at hh
+    exact hh.1
+  obtain ⟨b0, bpos⟩ := bt_anchored_head hh h
+  unfold searchAtU
+  rw [if_neg (by omega)]
+  by_cases hp : at_ > 0
+  · rw [if_pos ⟨ha, hp⟩, bpos at_ hp]
+    exact Or.inr rfl
+  · have h0 : at_ = 0 := by omega
+    subst h0
+    rw [if_neg (by simp), startState_anchored_eq ha, b0]
+    exact anchoredU_eq_bt hnrB hsdB cfg hbrk h hat
+
+/-- (c) for always-anchored automata -/
+theorem earliestU_eq_bt_anchored {N : NFA} (hnrB : noRuneB N = true) (hsdB : sparseDisjointB N = true)
+    (hh : anchoredHeadB N = true) (cfg : Config) (hbrk : cfg.breakAtMatch = true) {h : Bytes} {at_ : Nat}
+    (hat : at_ ≤ h.size) :
+    earliestU N cfg h at_ = .gaveUp ∨ earliestU N cfg h at_ = .ok (btSearchAt N h at_).isSome := by
+  have hnr := noRune_of_B hnrB
+  have ha : alwaysAnchored N = true := by
+    unfold anchoredHeadB at hh
+    simp only [Bool.and_eq_true] at hh
+    exact hh.1
+  obtain ⟨b0, bpos⟩ := bt_anchored_head hh h
+  unfold earliestU
+  rw [if_neg (by omega)]
+  by_cases hp : at_ > 0
+  · rw [if_pos ⟨ha, hp⟩, bpos at_ hp]
+    exact Or.inr rfl
+  · have h0 : at_ = 0 := by omega
+    subst h0
+    rw [if_neg (by simp), startState_anchored_eq ha]
+    have hU : earliestLoopU N cfg h (h.size + 1 - 0) 0 (startState N (kindAt h 0) true) =
+        eU N cfg h 0 (startState N (kindAt h 0) true) := rfl
+    rw [hU]
+    obtain ⟨e1, e2⟩ := good_start (LkEq.refl N (lkReal h 0)) 0 N.startAnchored
+    have hsi := si_start N h 0 true
+    simp only [↓reduceIte] at hsi
+    rcases eU_eq_R hnr cfg hbrk h 0 (h.size - 0) 0 _ _ rfl hat hsi (by rw [Lr_single]; exact e2) with hg | hok
+    · exact Or.inl hg
+    · right
+      rw [hok, Lr_single, e1, Pike.R_eq_bt (sparseDisjoint_of_B hsdB) (Or.inl hnr) (Nat.le_refl _) hat, ← b0]
+      cases btSearchAt N h 0 <;> rfl
 
 end Cx.Dfa
